@@ -36,6 +36,7 @@ def run(ck):
     ck.rule("C06.R2", "push/pop/iter/current stack discipline", floor=6)
     ck.rule("C06.R3", "parent resolution table (root / contextual / explicit), siblings agree", floor=4)
     ck.rule("C06.R4", "scope walk follows parent links; from_root reverses", floor=3)
+    ck.rule("C06.R7", "a filtered layer's current span comes from the thread's entered-span stack, not from parent links (as C07.R3)", floor=1)
     ck.rule("C06.R6", "collector wrappers forward enter/exit/new_span/current_span and the reference counting that keeps ancestors alive (as C09.R1/R2)", floor=15)
     ck.rule("C06.R5", "captured span traces hold counted handles", floor=1)
     r1(ck, F)
@@ -43,6 +44,8 @@ def run(ck):
     r3(ck, F)
     r4(ck, F)
     r5(ck, F)
+    from rules import C07
+    C07.lookup_current_fallback(ck, F, rid="C06.R7")
     # enter/exit/new_span/current_span reach the registry's per-thread stack only through forwarding wrappers (C09.R1/R2)
     from rules import C09
     C09.wrapper_rules(ck, F, rids={"R0": "C06.R6", "R1": "C06.R6", "R2": "C06.R6", "R3": "C06.R6"}, traits=["tracing_core::collect::Collect"],
